@@ -110,6 +110,10 @@ pub struct Config
     pub update_after_top: bool,
     /// Issue a final `Gc` + `Poll` at the end of every program.
     pub final_gc: bool,
+    /// Frame mode: chosen top-level operations are issued by plain Bevy systems of the App's `Update` schedule, up
+    /// to `.0` systems per frame, `.1` = chained (a sync point between consecutive systems) or unordered (deferred
+    /// commands applied together); `max_top` is then the number of frames and every frame is a full `App::update()`.
+    pub frame: Option<(u32, bool)>,
     /// Trigger entities prepared for auto-despawn at setup; the harness holds the only signal (`Op::DropSignal`).
     pub auto_ents: Vec<EntId>,
 }
@@ -138,6 +142,7 @@ impl Config
             update_after_top: false,
             final_gc: false,
             auto_ents: vec![],
+            frame: None,
         }
     }
 }
@@ -173,6 +178,8 @@ pub struct Ctx
     pub tokens_ready: u32,
     /// Creations waiting for their marker: (cmd, new actor, token).
     pub pending_creations: Vec<(CmdId, Option<ActorId>, Option<TokenId>)>,
+    /// Frame mode: operations the slot systems issue this frame, with their command index.
+    pub slots: Vec<Option<(Op, u16)>>,
     /// Harness self-check failures (machinery errors, never verdicts).
     pub machinery_error: Option<String>,
 }
@@ -229,6 +236,7 @@ impl Ctx
             actors_ready: 0,
             tokens_ready: 0,
             pending_creations: Vec::new(),
+            slots: Vec::new(),
             machinery_error: None,
         }
     }
